@@ -9,7 +9,7 @@ From Coq Require Import Lia.
 From InvokeVerif Require Import Common.Tree Common.StrUtil Model.MergeModel Model.EnvModel
      Model.ConfigModel Spec.C03Spec Spec.C06Spec Proofs.ListFacts Proofs.TreeFacts Proofs.C03_merge
      Proofs.C03_levels Proofs.C03_order Proofs.C06_shapes Proofs.C06_track Proofs.C06_envfacts
-     Proofs.C06_refine Proofs.C06_union Proofs.C06_specrun.
+     Proofs.C06_refine Proofs.C06_union Proofs.C06_specrun Proofs.C03_script Proofs.C03_whole.
 
 (** * 1. Same shapes everywhere: equal as dicts *)
 Lemma depth_kid k t kids : In (k, t) kids -> depth t < depth (Node kids).
@@ -358,4 +358,288 @@ Proof.
   - repeat split; reflexivity.
   - repeat split; reflexivity.
   - destruct (get k d0); repeat split; reflexivity.
+Qed.
+
+(** * 5. What a good state shows, against the specification's base *)
+Lemma good_view_union S c J : is_node S = true -> good S c J ->
+  wf (Node (replay (union_of (lower c)) J)) = true /\
+  sim (Node (c_cache c)) (Node (replay (union_of (lower c)) J)).
+Proof.
+  intros HS Hg.
+  destruct (good_view S c _ HS Hg) as [X [EX [WX [Hs _]]]].
+  pose proof (g_lower _ _ _ Hg) as HL. rewrite Forall_forall in HL.
+  assert (Hl : forall l, In l (lower c) -> wf l = true /\ is_node l = true).
+  { intros l Hin. destruct (HL l Hin) as [W [N _]]. auto. }
+  assert (Hp : forall a b, In a (lower c) -> In b (lower c) -> agree a b).
+  { intros a b Ha Hb. eapply conforms_agree; [apply (HL a Ha) | apply (HL b Hb)]. }
+  pose proof (union_sim_merge (lower c) X Hl Hp EX) as Hu.
+  destruct (union_shape (lower c) (Node []) eq_refl eq_refl) as [Wu [Nu _]]; [| exact Hp |].
+  { intros l Hin. destruct (Hl l Hin) as [W N]. split; [assumption|]. split; [assumption|].
+    destruct l; [discriminate|]. apply agree_empty_node. }
+  fold (union_of (lower c)) in Wu, Nu.
+  pose proof (inv_wfJ _ _ _ _ (g_inv _ _ _ Hg)) as WJ.
+  destruct (union_of (lower c)) as [v|u] eqn:Eu; [discriminate|].
+  split; [apply wf_replay; assumption|].
+  eapply sim_trans; [exact Hs|]. apply sim_sym. apply replay_sim; assumption.
+Qed.
+
+(** * 6. The levels the specification reads off the load calls, one call more *)
+Lemma levels_snoc_defaults fs i loads t e :
+  levels9 (supplied_of fs i (loads ++ [LoadDefaults t])) e =
+  norm t :: skipn 1 (levels9 (supplied_of fs i loads) e).
+Proof.
+  unfold supplied_of, has_op. rewrite map_app. cbn [map undefer].
+  rewrite !last_of_snoc, !after_last_snoc. cbv beta iota. rewrite !existsb_app.
+  cbn [existsb orb]. rewrite !orb_false_r. reflexivity.
+Qed.
+
+Lemma levels_snoc_collection fs i loads t e :
+  levels9 (supplied_of fs i (loads ++ [LoadCollection t])) e =
+  firstn 1 (levels9 (supplied_of fs i loads) e) ++ norm t :: skipn 2 (levels9 (supplied_of fs i loads) e).
+Proof.
+  unfold supplied_of, has_op. rewrite map_app. cbn [map undefer].
+  rewrite !last_of_snoc, !after_last_snoc. cbv beta iota. rewrite !existsb_app.
+  cbn [existsb orb]. rewrite !orb_false_r. reflexivity.
+Qed.
+
+Lemma levels_snoc_overrides fs i loads t e :
+  levels9 (supplied_of fs i (loads ++ [LoadOverrides t])) e =
+  firstn 7 (levels9 (supplied_of fs i loads) e) ++ [norm t].
+Proof.
+  unfold supplied_of, has_op. rewrite map_app. cbn [map undefer].
+  rewrite !last_of_snoc, !after_last_snoc. cbv beta iota. rewrite !existsb_app.
+  cbn [existsb orb]. rewrite !orb_false_r. reflexivity.
+Qed.
+
+Lemma levels_snoc_env fs i loads env e :
+  levels9 (supplied_of fs i (loads ++ [LoadShellEnv env])) e = levels9 (supplied_of fs i loads) e.
+Proof.
+  destruct (supplied_env_snoc fs i loads env) as [Q1 [Q2 _]]. cbv zeta in *.
+  unfold levels9. rewrite Q1, Q2. reflexivity.
+Qed.
+
+Lemma levels9_env S e e' : levels9 S e' = firstn 5 (levels9 S e) ++ e' :: skipn 6 (levels9 S e).
+Proof. reflexivity. Qed.
+
+Lemma norm_id t : is_node t = true -> norm t = t.
+Proof. destruct t; [discriminate | reflexivity]. Qed.
+
+(** * 7. Reloads *)
+Lemma dict_reload S fs c J o t : is_node S = true -> good S c J -> level_okb S t = true ->
+  (o = LoadDefaults t \/ o = LoadCollection t \/ o = LoadOverrides t) ->
+  snd (step fs c o) = ONone /\ c_env (fst (step fs c o)) = c_env c /\
+  lower (fst (step fs c o)) =
+    match o with
+    | LoadDefaults _ => t :: skipn 1 (lower c)
+    | LoadCollection _ => firstn 1 (lower c) ++ t :: skipn 2 (lower c)
+    | _ => firstn 7 (lower c) ++ [t]
+    end.
+Proof.
+  intros HS HG Ht Ho. pose proof (level_okb_ok S t Ht) as Hl.
+  destruct Ho as [-> | [-> | ->]]; unfold step, step_with, merged.
+  - destruct (step_reload S c J (set_defaults c t) t HS HG Hl) as [d [Er _]]; [auto|].
+    rewrite Er. repeat split; reflexivity.
+  - destruct (step_reload S c J (set_collection c t) t HS HG Hl) as [d [Er _]]; [auto|].
+    rewrite Er. repeat split; reflexivity.
+  - destruct (step_reload S c J (set_overrides c t) t HS HG Hl) as [d [Er _]]; [auto|].
+    rewrite Er. repeat split; reflexivity.
+Qed.
+
+Lemma env_reload S fs c J env : is_node S = true -> good S c J ->
+  env_error (snd (step fs c (LoadShellEnv env))) = true \/
+  (snd (step fs c (LoadShellEnv env)) = ONone /\
+   exists dd, c_env (fst (step fs c (LoadShellEnv env))) = Node dd /\
+              lower (fst (step fs c (LoadShellEnv env))) =
+              firstn 5 (lower c) ++ Node dd :: skipn 6 (lower c)).
+Proof.
+  intros HS HG. unfold step, step_with. destruct HG as [HL HI HC].
+  assert (HL0 : Forall (level_ok S) (lower (set_env c (Node [])))).
+  { assert (Henv : level_ok S (Node [])).
+    { split; [reflexivity|]. split; [reflexivity | apply conforms_empty; exact HS]. }
+    unfold lower in *. lower_inv HL. destruct c; simpl in *.
+    repeat (first [assumption | apply Forall_cons | apply Forall_nil]). }
+  assert (HI0 : inv S (c_mods (set_env c (Node []))) (c_dels (set_env c (Node []))) J) by (destruct c; exact HI).
+  destruct (remerge_good S (set_env c (Node [])) J ONone HS HL0 HI0) as [d1 [Er1 Hg1]]. rewrite Er1.
+  destruct (good_cache_conforms S _ J HS Hg1) as [Wc1 Cc1].
+  destruct (load (Node (c_cache (set_cache (set_env c (Node [])) d1))) (c_env_prefix (set_cache (set_env c (Node [])) d1)) env) as [dd|e] eqn:El.
+  - destruct (load_level_ok S _ _ _ dd HS Wc1 Cc1 El) as [Wdd Cdd].
+    destruct Hg1 as [HLa HIa HCa].
+    destruct (remerge_good S (set_env (set_cache (set_env c (Node [])) d1) (Node dd)) J ONone HS) as [d2 [Er2 Hg2]].
+    + unfold lower in *. lower_inv HLa. destruct c; simpl in *.
+      repeat (constructor; try assumption).
+    + destruct c; exact HIa.
+    + right. unfold merged. rewrite Er2. cbn [fst snd]. split; [reflexivity|]. exists dd. split; reflexivity.
+  - left. cbn [fst snd]. destruct (load_err_kind _ _ _ _ Wc1 El) as [ -> | [ -> | -> ] ]; reflexivity.
+Qed.
+
+(** * 8. Journal entries on two dicts that show the same *)
+Theorem nd_events_sim d1 d2 o obs :
+  wf (Node d1) = true -> wf (Node d2) = true -> sim (Node d1) (Node d2) ->
+  guarded_path_op o = true -> (forall fl kp, o <> Clear fl kp) ->
+  snd (nd_step d2 o obs) = snd (nd_step d1 o obs).
+Proof.
+  intros W1 W2 H Hg Hnc.
+  destruct o; try discriminate; try (exfalso; eapply Hnc; reflexivity); cbn [nd_step];
+    pose proof (walk_sim fl kp d1 d2 W1 W2 H) as Hn;
+    destruct (walk fl d1 kp) as [a|e1], (walk fl d2 kp) as [b|e2]; try contradiction;
+    try reflexivity; destruct Hn as [Wa [Wb Hs]]; cbn [snd]; try reflexivity.
+  - pose proof (get_equiv k a b Wa Wb Hs) as G.
+    destruct (get k a), (get k b); try contradiction; reflexivity.
+  - rewrite (sim_has k a b Hs). destruct (has k b); reflexivity.
+  - pose proof (get_equiv k a b Wa Wb Hs) as G.
+    destruct (get k a), (get k b); try contradiction; [reflexivity|]. destruct dflt; reflexivity.
+  - pose proof (sim_nil a b Wa Wb Hs) as Hnil.
+    destruct a as [|x a'], b as [|y b']; try reflexivity;
+      try (exfalso; destruct Hnil as [H1 H2]; (discriminate (H1 eq_refl) || discriminate (H2 eq_refl))).
+    destruct obs; try reflexivity.
+    pose proof (get_equiv k (x :: a') (y :: b') Wa Wb Hs) as G.
+    destruct (get k (x :: a')), (get k (y :: b')); try contradiction; reflexivity.
+  - pose proof (get_equiv k a b Wa Wb Hs) as G.
+    destruct (get k a), (get k b); try contradiction; reflexivity.
+  - pose proof (get_equiv k a b Wa Wb Hs) as G.
+    destruct (get k a), (get k b); try contradiction; reflexivity.
+Qed.
+
+Lemma sim_keys_iff a b : sim (Node a) (Node b) -> forall k, In k (keys a) <-> In k (keys b).
+Proof. intros H k. split; apply sim_keys; [exact H | apply sim_sym; exact H]. Qed.
+
+(** * 9. The judge's reference state vs. the model's state *)
+Record rel (fs : fsys) (i : init_args) (S : tree) (c : cfg) (r : rstate) : Prop := mkRel {
+  rl_good : good S c (r_journal r);
+  rl_levels : lower c = levels_now fs i (r_loads r) (r_env r);
+  rl_st : r_st r = replay (union_of (lower c)) (r_journal r);
+  rl_env : r_env r = c_env c;
+  rl_h : r_handles r = [];
+  rl_d : r_dead r = []
+}.
+
+Lemma lower_env c : nth 5 (lower c) (Node []) = c_env c.
+Proof. reflexivity. Qed.
+
+Lemma good_env_wf S c J : good S c J -> wf (c_env c) = true.
+Proof.
+  intros [HL _ _]. rewrite Forall_forall in HL.
+  assert (Hin : In (c_env c) (lower c)) by (unfold lower; simpl; auto 10).
+  apply (HL _ Hin).
+Qed.
+
+Lemma fold_replay base J evs :
+  fold_left apply_event evs (replay base J) = replay base (J ++ evs).
+Proof. unfold replay. rewrite fold_left_app. reflexivity. Qed.
+
+Lemma path_step_ok S fs i c r o : is_node S = true -> rel fs i S c r ->
+  op_ok S o = true -> op_wf o = true -> guarded_path_op o = true ->
+  exists r', judge_path_op r o (snd (step fs c o)) (Node (c_cache (fst (step fs c o))))
+                           (c_env (fst (step fs c o))) = (None, r') /\
+             rel fs i S (fst (step fs c o)) r'.
+Proof.
+  intros HS [Hgood Hlev Hst Henv Hh Hd] Hok Hwf Hg.
+  destruct (good_view_union S c _ HS Hgood) as [Wst Hsim]. rewrite <- Hst in Wst, Hsim.
+  destruct (model_out_is_nd_out S fs c _ o HS Hgood Hok Hg) as [M1 [E1 L1]].
+  destruct (good_cache_conforms S c _ HS Hgood) as [Wc _].
+  destruct (step_good S fs c _ o HS Hgood Hok) as [Hgood' _].
+  set (c' := fst (step fs c o)) in *.
+  (* the journal entries the specification logs keep the invariant *)
+  assert (Hgood2 : good S c' (r_journal r ++ snd (nd_step (r_st r) o (snd (step fs c o))))).
+  { destruct (guarded_path_op o) eqn:Eg; [|discriminate].
+    assert (Hcl : (exists fl kp, o = Clear fl kp) \/ (forall fl kp, o <> Clear fl kp)).
+    { destruct o; try (right; intros; discriminate). left. eauto. }
+    destruct Hcl as [[fl [kp ->]] | Hnc].
+    - unfold events_of in Hgood'. cbn [nd_step].
+      pose proof (walk_sim fl kp (c_cache c) (r_st r) Wc Wst Hsim) as Hn.
+      change (walk fl (c_cache c) kp) with (nav fl (c_cache c) kp) in Hn.
+      destruct (nav fl (c_cache c) kp) as [a|e1], (walk fl (r_st r) kp) as [b|e2]; try contradiction;
+        [|exact Hgood'].
+      destruct Hn as [Wa [Wb Hs]]. cbn [snd].
+      apply (good_journal_sim S c' _ _ Hgood').
+      + apply Forall_app. split; [apply (inv_wfJ _ _ _ _ (g_inv _ _ _ Hgood)) | apply event_wf_dels].
+      + intros X WX. apply clear_journal_sim; [exact WX | apply (inv_wfJ _ _ _ _ (g_inv _ _ _ Hgood)) |].
+        apply sim_keys_iff. exact Hs.
+    - rewrite (nd_events_sim (c_cache c) (r_st r) o _ Wc Wst Hsim Eg Hnc), E1. exact Hgood'. }
+  unfold judge_path_op.
+  destruct (nd_step (r_st r) o (snd (step fs c o))) as [want evs] eqn:End.
+  assert (Ew : want = fst (nd_step (r_st r) o (snd (step fs c o)))) by (rewrite End; reflexivity).
+  assert (Ee : evs = snd (nd_step (r_st r) o (snd (step fs c o)))) by (rewrite End; reflexivity).
+  cbn [snd] in Hgood2.
+  (* A: the outcome *)
+  assert (A : out_match want (snd (step fs c o)) = true).
+  { pose proof (nd_out_sim (c_cache c) (r_st r) o (snd (step fs c o)) Wc Wst Hsim Hg Hwf) as A.
+    rewrite <- M1 in A. rewrite Ew. exact A. }
+  (* B: the view *)
+  assert (Est : fold_left apply_event evs (r_st r) = replay (union_of (lower c')) (r_journal r ++ evs)).
+  { rewrite Hst, fold_replay, L1. reflexivity. }
+  assert (B : tree_equiv (Node (fold_left apply_event evs (r_st r))) (Node (c_cache c')) = true).
+  { destruct (good_view_union S c' _ HS Hgood2) as [W2 S2]. rewrite Est.
+    apply sim_tree_equiv; [exact W2 | apply (good_cache_conforms S c' _ HS Hgood2) | apply sim_sym; exact S2]. }
+  (* C: the environment level *)
+  assert (Ec : c_env c' = c_env c).
+  { rewrite <- !lower_env, L1. reflexivity. }
+  assert (C : tree_equiv (c_env c') (r_env r) = true).
+  { rewrite Ec, Henv. apply tree_equiv_refl. apply (good_env_wf S c _ Hgood). }
+  rewrite A, B, C. cbn [andb]. eexists. split; [reflexivity|].
+  constructor; cbn [r_journal r_loads r_env r_st r_handles r_dead].
+  - exact Hgood2.
+  - rewrite L1. exact Hlev.
+  - exact Est.
+  - rewrite Ec. exact Henv.
+  - rewrite Hh. reflexivity.
+  - rewrite Hh, Hd. reflexivity.
+Qed.
+
+Definition is_guarded_reload (o : op) : bool :=
+  match o with
+  | LoadDefaults _ | LoadOverrides _ | LoadCollection _ | LoadShellEnv _ => true
+  | _ => false
+  end.
+
+Lemma op_ok_kinds S o : op_ok S o = true -> guarded_path_op o = true \/ is_guarded_reload o = true.
+Proof. destruct o; simpl; try discriminate; auto. Qed.
+
+Lemma level_okb_node S t : level_okb S t = true -> is_node t = true.
+Proof. unfold level_okb. intros H. apply andb_true_iff in H as [H _]. apply andb_true_iff in H as [_ H]. exact H. Qed.
+
+Lemma reload_step_ok S fs i c r o : is_node S = true -> rel fs i S c r ->
+  op_ok S o = true -> is_guarded_reload o = true ->
+  let x := (Plain o, snd (step fs c o), Node (c_cache (fst (step fs c o))), c_env (fst (step fs c o))) in
+  (exists r', judge_step fs i r x = (Some true, r')) \/
+  (exists r', judge_step fs i r x = (None, r') /\ rel fs i S (fst (step fs c o)) r').
+Proof.
+  intros HS [Hgood Hlev Hst Henv Hh Hd] Hok Hr. cbv zeta.
+  destruct (step_good S fs c _ o HS Hgood Hok) as [Hgood' _].
+  assert (Eev : events_of c o = []) by (destruct o; try discriminate; reflexivity).
+  rewrite Eev, app_nil_r in Hgood'.
+  set (c' := fst (step fs c o)) in *. set (out := snd (step fs c o)) in *.
+  assert (Hfacts : env_error out = true \/
+                   (out = ONone /\ lower c' = levels_now fs i (r_loads r ++ [o]) (c_env c') /\
+                    (match o with LoadShellEnv _ => True | _ => c_env c' = c_env c end))).
+  { unfold levels_now in *. destruct o; try discriminate; simpl in Hok.
+    - destruct (dict_reload S fs c _ (LoadDefaults t) t HS Hgood Hok) as [E1 [E2 E3]]; [auto|].
+      right. fold c' in E2, E3. fold out in E1. split; [exact E1|]. split; [|exact E2].
+      rewrite E3, E2, levels_snoc_defaults, <- Henv, <- Hlev, (norm_id t (level_okb_node S t Hok)). reflexivity.
+    - destruct (dict_reload S fs c _ (LoadOverrides t) t HS Hgood Hok) as [E1 [E2 E3]]; [auto|].
+      right. fold c' in E2, E3. fold out in E1. split; [exact E1|]. split; [|exact E2].
+      rewrite E3, E2, levels_snoc_overrides, <- Henv, <- Hlev, (norm_id t (level_okb_node S t Hok)). reflexivity.
+    - destruct (dict_reload S fs c _ (LoadCollection t) t HS Hgood Hok) as [E1 [E2 E3]]; [auto|].
+      right. fold c' in E2, E3. fold out in E1. split; [exact E1|]. split; [|exact E2].
+      rewrite E3, E2, levels_snoc_collection, <- Henv, <- Hlev, (norm_id t (level_okb_node S t Hok)). reflexivity.
+    - destruct (env_reload S fs c _ env HS Hgood) as [E | [E1 [dd [E2 E3]]]]; [left; exact E|].
+      right. fold c' in E2, E3. fold out in E1. split; [exact E1|]. split; [|exact I].
+      rewrite E3, E2, levels_snoc_env, (levels9_env _ (r_env r)), <- Hlev. reflexivity. }
+  unfold judge_step.
+  assert (Ep : is_path_op o = false) by (destruct o; try discriminate; reflexivity).
+  assert (Erl : is_reload o = true) by (destruct o; try discriminate; reflexivity).
+  rewrite Ep, Erl.
+  destruct Hfacts as [Ee | [Eo [El Eenv]]]; [rewrite Ee; left; eauto|].
+  rewrite Eo. cbn [env_error out_match andb].
+  destruct (scope_ok fs i (r_loads r ++ [o]) (c_env c')); cbn [negb]; [|left; eauto].
+  right. rewrite <- El.
+  destruct (good_view_union S c' _ HS Hgood') as [W2 S2].
+  assert (B : tree_equiv (Node (replay (union_of (lower c')) (r_journal r))) (Node (c_cache c')) = true).
+  { apply sim_tree_equiv; [exact W2 | apply (good_cache_conforms S c' _ HS Hgood') | apply sim_sym; exact S2]. }
+  rewrite B. cbn [andb].
+  assert (C : match o with LoadShellEnv _ => true | _ => tree_equiv (c_env c') (r_env r) end = true).
+  { destruct o; try discriminate; try reflexivity;
+      rewrite Eenv, Henv; apply tree_equiv_refl; apply (good_env_wf S c _ Hgood). }
+  rewrite C. eexists. split; [reflexivity|].
+  constructor; cbn [r_journal r_loads r_env r_st r_handles r_dead]; auto.
 Qed.
